@@ -1098,6 +1098,22 @@ namespace chaiscript {
           }
         }
 
+        /// Completes an escape sequence that is still pending at the end of the literal.
+        /// Unlike the destructor this reports a malformed trailing escape.
+        void finish() {
+          if (is_octal) {
+            process_octal();
+          }
+
+          if (is_hex) {
+            process_hex();
+          }
+
+          if (unicode_size > 0) {
+            process_unicode();
+          }
+        }
+
         void process_hex() {
           if (!hex_matches.empty()) {
             auto val = stoll(hex_matches, nullptr, 16);
@@ -1345,6 +1361,8 @@ namespace chaiscript {
               }
             }
 
+            cparser.finish();
+
             if (cparser.saw_interpolation_marker) {
               match.push_back('$');
             }
@@ -1408,6 +1426,8 @@ namespace chaiscript {
             for (auto s = start + 1, end = m_position - 1; s != end; ++s) {
               cparser.parse(*s, start.line, start.col, *m_filename);
             }
+
+            cparser.finish();
           }
 
           if (match.size() != 1) {
